@@ -684,6 +684,16 @@ def expected_origin(cfg: Dict[str, Any]) -> Any:
     return cfg["origin"] if cfg["origin"] else None
 
 
+def same_subscribe(got: Any, want: Dict[str, Any]) -> bool:
+    """equal as protocol messages: an absent, null or empty `variables` member all say "no variables" """
+    def norm(m: Any) -> Any:
+        if isinstance(m, dict) and isinstance(m.get("payload"), dict) and m["payload"].get("variables", None) in (None, {}):
+            return {**m, "payload": {k: v for k, v in m["payload"].items() if k != "variables"}}
+        return m
+
+    return common.same_json(norm(got), norm(want))
+
+
 def oracle(case: Dict[str, Any], obs: Dict[str, Any]) -> List[Tuple[str, Optional[str], str]]:
     """The property, clause by clause, over the recorded REAL trace.  Returns (signature, trigger, detail)
     per failed clause.  Nothing here looks at the Lean model."""
@@ -769,7 +779,7 @@ def oracle(case: Dict[str, Any], obs: Dict[str, Any]) -> List[Tuple[str, Optiona
     if kind == "present":
         want_payload["variables"] = want_vars
     want_sub = {"id": OP_ID, "type": PROTO["subscribe"], "payload": want_payload}
-    if not rest or rest[0][0] != "send" or not common.same_json(rest[0][1], want_sub):
+    if not rest or rest[0][0] != "send" or not same_subscribe(rest[0][1], want_sub):
         fail("subscribe-missing-or-wrong", None, repr(rest[:1])[:300])
         return fails
     rest = rest[1:]
@@ -839,6 +849,13 @@ def oracle(case: Dict[str, Any], obs: Dict[str, Any]) -> List[Tuple[str, Optiona
 # --------------------------------------------------------------------------------------------
 
 MAX_KEPT_PER_KEY = 40
+MAX_KEPT_MISMATCHES = 200  # per batch; the total is counted in the distribution ("mismatch:<observation>")
+
+
+def add_mismatch(res: Result, m: Mismatch) -> None:
+    res.count("mismatch:" + m.observation)
+    if len(res.mismatches) < MAX_KEPT_MISMATCHES:
+        res.mismatches.append(m)
 
 
 def strip_obs(obs: Dict[str, Any]) -> Dict[str, Any]:
@@ -866,7 +883,7 @@ def judge_cases(ctx: Ctx, st: Optional[LeanStatus], todo: List[Dict[str, Any]], 
             try:
                 obs = observe(client, tracer, case)
             except (AttributeError, ImportError, TypeError) as e:
-                res.mismatches.append(Mismatch("execute_ws", {**case, "client": client, "tracer": tracer}, f"observer: {e!r}", None))
+                add_mismatch(res, Mismatch("execute_ws", {**case, "client": client, "tracer": tracer}, f"observer: {e!r}", None))
                 continue
             per_variant.append(obs)
             res.count("outcome:" + obs["outcome"]["o"] + (":" + obs["outcome"]["exc"] if obs["outcome"]["o"] == "internal" else ""))
@@ -880,12 +897,12 @@ def judge_cases(ctx: Ctx, st: Optional[LeanStatus], todo: List[Dict[str, Any]], 
             if model_out is not None:
                 m = model_out[ci * len(VARIANTS) + vi]
                 if not common.same_json(strip_obs(obs), {"events": m["events"], "outcome": m["outcome"]}):
-                    res.mismatches.append(Mismatch("execute_ws", inp, strip_obs(obs), {"events": m["events"], "outcome": m["outcome"]}))
+                    add_mismatch(res, Mismatch("execute_ws", inp, strip_obs(obs), {"events": m["events"], "outcome": m["outcome"]}))
                 if vi == 0:
                     if m["letters"] != [letter(f)[0] for f in case["frames"]]:
-                        res.mismatches.append(Mismatch("letter", case["frames"], [letter(f)[0] for f in case["frames"]], m["letters"]))
+                        add_mismatch(res, Mismatch("letter", case["frames"], [letter(f)[0] for f in case["frames"]], m["letters"]))
                     if m["trig"] != trig:
-                        res.mismatches.append(Mismatch("trigger", case, trig, m["trig"]))
+                        add_mismatch(res, Mismatch("trigger", case, trig, m["trig"]))
         # the OpenTelemetry variant behaves identically (stated on the real traces)
         if per_variant:
             first = strip_obs(per_variant[0])
@@ -902,6 +919,45 @@ def judge_cases(ctx: Ctx, st: Optional[LeanStatus], todo: List[Dict[str, Any]], 
         if case.get("label") in ("sample",) and per_variant:
             res.sample({"input": {"frames": case["frames"], "vars": case["vars"]}, "impl": strip_obs(per_variant[0]),
                         "model": ({"events": model_out[ci * 3]["events"], "outcome": model_out[ci * 3]["outcome"]} if model_out else None)})
+
+
+def judge_parallel(ctx: Ctx, st: Optional[LeanStatus], todo: List[Dict[str, Any]], res: Result, compare: bool = True,
+                   chunk: int = 1000) -> None:
+    """judge_cases on slices of `todo` in forked workers (each slice pipes its own lines through the
+    driver); results are merged in slice order, so the outcome does not depend on scheduling"""
+    from . import engine
+
+    if len(todo) <= chunk:
+        judge_cases(ctx, st, todo, res, compare)
+        return
+    slices = [todo[i:i + chunk] for i in range(0, len(todo), chunk)]
+
+    def work(part: List[Dict[str, Any]]) -> Result:
+        sub = Result()
+        judge_cases(ctx, st, part, sub, compare)
+        return sub
+
+    outs = engine.pmap_forked(work, [(part,) for part in slices], timeout=1500.0)
+    for i, (status, val) in enumerate(outs):
+        if status == "ok":
+            res.merge(val)
+        elif status == "timeout":
+            raise common.Infra(f"slice {i} of the correspondence run timed out")
+        else:
+            cls, msg, tb = val
+            if cls == "Infra":
+                raise common.Infra(msg)
+            raise common.Infra(f"slice {i} of the correspondence run crashed: {cls}: {msg}\n{tb[-1500:]}")
+    # at most MAX_KEPT_PER_KEY stored failures per (trigger, signature) over all slices
+    kept: Dict[str, int] = {}
+    pruned = []
+    for f in res.failures:
+        kept[f.key()] = kept.get(f.key(), 0) + 1
+        if kept[f.key()] <= MAX_KEPT_PER_KEY:
+            pruned.append(f)
+    res.failures[:] = pruned
+    del res.mismatches[MAX_KEPT_MISMATCHES:]
+    ctx.log(f"judged {len(todo)} cases x {len(VARIANTS)} variants in {len(slices)} forked slices")
 
 
 # --------------------------------------------------------------------------------------------
@@ -1221,7 +1277,7 @@ def loopback_protocol_oracle(case: Dict[str, Any], got: Dict[str, Any]) -> List[
     payload: Dict[str, Any] = {"query": QUERY, "operationName": case["cfg"]["opName"]}
     if kind == "present":
         payload["variables"] = want_vars
-    if len(msgs) < 2 or not common.same_json(msgs[1], {"id": OP_ID, "type": PROTO["subscribe"], "payload": payload}):
+    if len(msgs) < 2 or not same_subscribe(msgs[1], {"id": OP_ID, "type": PROTO["subscribe"], "payload": payload}):
         fails.append(("subscribe-missing-or-wrong", None, repr(msgs[1:2])[:200]))
         return fails
     pre, term = prefix_until_terminal(frames[1:])
@@ -1375,10 +1431,7 @@ def run(ctx: Ctx, st: Optional[LeanStatus]) -> Result:
     ex = exhaustive_cases(ctx)
     todo += ex
     todo += random_cases(ctx, ctx.budget(2000, 12000))
-    step = 4000
-    for i in range(0, len(todo), step):
-        judge_cases(ctx, st, todo[i:i + step], res)
-        ctx.log(f"judged {min(i + step, len(todo))}/{len(todo)} cases x {len(VARIANTS)} variants")
+    judge_parallel(ctx, st, todo, res)
     res.exhaustive = True
     res.rule = (
         "every frame sequence over the %s up to length %d, alone and behind a connection_ack, each paired with a rotating "
@@ -1419,7 +1472,7 @@ def search(ctx: Ctx) -> Result:
         for lead in ([], [ACK]):
             n += 1
             todo.append(make_case(lead + s, n, n // 5, n // 3, label="search"))
-    judge_cases(ctx, None, todo, res, compare=False)
+    judge_parallel(ctx, None, todo, res, compare=False)
     return res
 
 
